@@ -165,3 +165,29 @@ mut("rename-getType", "C20", "RENAME", "ext/typeexpr", "getType", "typeFromExpr"
 mut("rename-mergedContent", "C04", "RENAME", ".", "mergedContent", "contentOfAll")
 mut("rename-variablesNeeded", "C07", "RENAME", "hcldec", "variablesNeeded", "neededVariables")
 mut("rename-detach", "C12", "RENAME", "hclwrite", "Detach", "Unlink")
+
+# ---- C15 bounded.index ---------------------------------------------------------------------------
+mut("c15-bounds-recover-guard-dropped", "C15", "MUST", "hclsyntax/parser.go",
+    "\t\t\tif len(open) > 0 {\n\t\t\t\topen = open[:len(open)-1]\n\t\t\t}\n\n\t\tcase TokenTemplateSeqEnd:",
+    "\t\t\topen = open[:len(open)-1]\n\n\t\tcase TokenTemplateSeqEnd:", "bounded.index")
+mut("c15-bounds-validident-order", "C15", "MUST", "hclsyntax/public.go",
+    "return len(tokens) == 2 && tokens[0].Type == TokenIdent && tokens[1].Type == TokenEOF",
+    "return tokens[0].Type == TokenIdent && len(tokens) == 2 && tokens[1].Type == TokenEOF", "bounded.index")
+mut("c15-bounds-newline-guard-dropped", "C15", "MUST", "hclwrite/format.go",
+    "if len(tok.Bytes) > 0 && tok.Bytes[len(tok.Bytes)-1] == '\\n' {\n\t\t\treturn true",
+    "if tok.Bytes[len(tok.Bytes)-1] == '\\n' {\n\t\t\treturn true", "bounded.index")
+mut("c15-bounds-comment-cell-weaker", "C15", "KEEP", "hclwrite/format.go",
+    "if len(line.lead) > 1 && line.lead[len(line.lead)-1].Type == hclsyntax.TokenComment {",
+    "if n := len(line.lead); n >= 2 && line.lead[n-1].Type == hclsyntax.TokenComment {", "")
+# intended as MUST; the check is right to stay silent: an earlier `len(line.lead) == 0 → continue` still dominates
+mut("c15-bounds-comment-cell-zero", "C15", "KEEP", "hclwrite/format.go",
+    "if len(line.lead) > 1 && line.lead[len(line.lead)-1].Type == hclsyntax.TokenComment {",
+    "if len(line.lead) >= 0 && line.lead[len(line.lead)-1].Type == hclsyntax.TokenComment {", "")
+mut("c15-bounds-keep-hoisted-top", "C15", "KEEP", "hclwrite/format.go",
+    "\t\t\tfor closed > 0 && len(indents) > 0 {\n\t\t\t\tswitch {\n\n\t\t\t\tcase closed > indents[len(indents)-1]:\n\t\t\t\t\tclosed -= indents[len(indents)-1]\n\t\t\t\t\tindents = indents[:len(indents)-1]",
+    "\t\t\tfor closed > 0 && len(indents) != 0 {\n\t\t\t\ttop := len(indents) - 1\n\t\t\t\tswitch {\n\n\t\t\t\tcase closed > indents[top]:\n\t\t\t\t\tclosed -= indents[top]\n\t\t\t\t\tindents = indents[:top]", "")
+mut("c15-bounds-keep-early-return", "C15", "KEEP", "hclsyntax/structure.go",
+    "\tif len(b.Blocks) > 0 {\n\t\texample := b.Blocks[0]\n",
+    "\tif len(b.Blocks) >= 1 {\n\t\tblocks := b.Blocks\n\t\texample := blocks[0]\n", "")
+mut("c15-bounds-json-scan-guard", "C15", "MUST", "json/scanner.go",
+    "\t\tfirst := buf[0]\n", "\t\tfirst := buf[0]\n\t\t_ = buf[1]\n", "bounded.index")
